@@ -58,6 +58,9 @@ def _dotted(node):
     if isinstance(node, ast.Call):
         b = _dotted(node.func)
         return None if b is None else b + "()"
+    if isinstance(node, ast.Subscript):
+        b = _dotted(node.value)
+        return None if b is None else b + "[]"
     return None
 
 
@@ -74,6 +77,9 @@ def _is_view_of(node, roots):
     return False
 
 
+VIEW_HELPERS = {"_float_out_view"}     # module-level helpers that return a view of their argument's buffer
+
+
 def _aliases(fn, root):
     """names bound (anywhere in the function) to a view of the root's buffer; closed transitively"""
     al = {root}
@@ -83,7 +89,10 @@ def _aliases(fn, root):
         for node in ast.walk(fn):
             if isinstance(node, ast.Assign) and len(node.targets) == 1 and isinstance(node.targets[0], ast.Name):
                 t = node.targets[0].id
-                if t not in al and _is_view_of(node.value, al):
+                v = node.value
+                via_helper = (isinstance(v, ast.Call) and isinstance(v.func, ast.Name) and v.func.id in VIEW_HELPERS
+                              and v.args and _name_in(v.args[0], al))
+                if t not in al and (_is_view_of(v, al) or via_helper):
                     al.add(t)
                     changed = True
     return al
@@ -133,8 +142,17 @@ def _write_target(t, al, root):
     return None
 
 
-def events(fn, root, fallible, inplace_calls, extra_fallible_subscripts=()):
-    """ordered W:/F:/C: events of one function (source order)"""
+def _module_func(tree, name):
+    for node in tree.body:
+        if isinstance(node, ast.FunctionDef) and node.name == name:
+            return node
+    return None
+
+
+def events(fn, root, fallible, inplace_calls, extra_fallible_subscripts=(), helpers=None):
+    """ordered W:/F:/C: events of one function (source order).  `helpers`: {name: (FunctionDef, its
+    parameter playing the role of the target)} — a call `name(<target>)` is replaced by the events of
+    the helper's body (module-level helpers that perform writes on the target, e.g. `_float_out_view`)"""
     al = _aliases(fn, root)
     out = []
 
@@ -170,6 +188,13 @@ def events(fn, root, fallible, inplace_calls, extra_fallible_subscripts=()):
             callee = _dotted(node.func) or ""
             short = callee.split(".")[-1]
             end = (node.end_lineno, node.end_col_offset)
+            # module-level helpers applied to the target: inlined --------------------------
+            if helpers and callee in helpers and node.args and _refers(node.args[0], al):
+                hfn, hroot = helpers[callee]
+                for k, ev in enumerate(events(hfn, hroot, fallible, inplace_calls)):
+                    ev = ev.replace(f"{hroot}.", f"{root}.").replace(f"({hroot})", f"({root})")
+                    out.append((end, 1, ev))
+                continue
             # writes through calls ------------------------------------------------------
             tgt = None
             for kw in node.keywords:
@@ -215,7 +240,7 @@ def events(fn, root, fallible, inplace_calls, extra_fallible_subscripts=()):
 FALLIBLE = {
     "_sanitize_units_convert", "_check_em_conversion", "_em_conversion", "get_conversion_factor", "Unit",
     "has_equivalent", "get_base_equivalent", "get_cgs_equivalent", "get_mks_equivalent", "astype", "_cancel_mul",
-    "to", "in_units", "_sanitize_unit_system", "_coerce_iterable_units", "unit_operator", "func",
+    "to", "to_value", "in_units", "_sanitize_unit_system", "_coerce_iterable_units", "unit_operator", "func",
     "_apply_power_mapping", "_get_binary_op_return_class", "ret_class", "unyt_quantity", "unyt_array",
     "np.dtype", "dtype",
 }
@@ -299,8 +324,12 @@ def generate(X):
     orders["inUnits"] = events(_method(arr, "unyt_array", "in_units"), "self", FALLIBLE, INPLACE)
     orders["inBase"] = events(_method(arr, "unyt_array", "in_base"), "self", FALLIBLE, INPLACE)
     orders["setitem"] = events(_method(arr, "unyt_array", "__setitem__"), "self", FALLIBLE, INPLACE)
+    helpers = {}
+    hf = _module_func(arr, "_float_out_view")
+    if hf is not None:
+        helpers["_float_out_view"] = (hf, hf.args.args[0].arg)
     orders["arrayUfunc"] = events(_method(arr, "unyt_array", "__array_ufunc__"), "out", FALLIBLE, INPLACE,
-                                  ("self._ufunc_registry",))
+                                  ("self._ufunc_registry",), helpers=helpers)
     orders["unitSimplify"] = events(_method(uo, "Unit", "simplify"), "self", FALLIBLE, INPLACE)
 
     facts = method_facts(arr, "unyt_array") + method_facts(arr, "unyt_quantity") + method_facts(uo, "Unit")
@@ -328,11 +357,16 @@ def generate(X):
     units_last = idx(ctu, "W:self.units") > max(idx(ctu, "W:values*="), idx(ctu, "W:np.subtract(out=values)"))
     ro_guard = ctu[: max(idx(ctu, "W:values.dtype"), 0)].count("F:raise:ValueError") >= 2
     au = orders["arrayUfunc"]
-    out_ro_guard = "F:raise:ValueError" in au[: max(idx(au, "W:out.dtype"), 0)]
+    k = idx(au, "W:out.dtype")
+    out_ro_guard = k > 0 and "F:raise:ValueError" in au[max(k - 3, 0):k]
+    # the integer out= is re-typed only after the operands' units have been checked (fix C01-04)
+    promote_after_checks = idx(au, "W:out.dtype") > idx(au, "F:in_units") >= 0
     L.append("/-- `convert_to_units` assigns `self.units` after the data have been converted (fix C18-01) -/\n"
              f"def ctuUnitsLast : Bool := {'true' if units_last else 'false'}\n")
     L.append("/-- `convert_to_units` refuses a read-only integer buffer before re-typing it (fix C18-03) -/\n"
              f"def ctuReadonlyGuard : Bool := {'true' if ro_guard else 'false'}\n")
+    L.append("/-- `__array_ufunc__` re-types an integer `out=` immediately before the kernel call, after the unit checks (fix C01-04) -/\n"
+             f"def promoteAfterChecks : Bool := {'true' if promote_after_checks else 'false'}\n")
     L.append("/-- the `out=` promotion of `__array_ufunc__` refuses a read-only integer buffer before re-typing it (fix C18-03) -/\n"
              f"def outReadonlyGuard : Bool := {'true' if out_ro_guard else 'false'}\n")
     simplify_copies = not any(e.startswith("W:") for e in orders["unitSimplify"])
@@ -346,4 +380,5 @@ def generate(X):
     X.write_if_changed(os.path.join(X.GEN, "C18Order.lean"), "\n".join(L))
     return {"orders": orders, "methodFacts": [[m, ws, cs] for m, ws, cs in facts],
             "equivalenceOuts": [[c, outs, d] for c, outs, d in eq_rows], "getOutBody": get_out, "fixupReenters": reenters,
-            "simplifyCopies": simplify_copies, "ctuUnitsLast": units_last, "ctuReadonlyGuard": ro_guard, "outReadonlyGuard": out_ro_guard}
+            "simplifyCopies": simplify_copies, "ctuUnitsLast": units_last, "ctuReadonlyGuard": ro_guard, "outReadonlyGuard": out_ro_guard,
+            "promoteAfterChecks": promote_after_checks}
